@@ -8,6 +8,18 @@ PY = "/venv/bin/python"
 
 # id -> (technique, level text, level note, design ref)
 CHECKS = {
+    "C08": (
+        "Hypothesis over (table state, getter, coordinates, mutation of the result) with the grid model as oracle for address/content and byte-equality of serialisations as oracle for detachment",
+        "Each getter is called on generated run-length-encoded tables (after cache-warming reads and edits) with coordinates inside, at the edge of and outside the populated area; stamped coordinates and content are compared with the grid model, expanding getters must drop repeat counts, and a generated mutation of one returned object must leave the table and all other returned objects byte-identical where the docstring promises copies.",
+        "Detachment judged only for getters documented as returning copies; one known finding (Table.traverse aliasing unrepeated rows) is excluded by a scope predicate and printed as KNOWN-FINDING.",
+        "DESIGN.md 3/C08",
+    ),
+    "C19": (
+        "exhaustive enumeration of the column-letter bijection + Hypothesis metamorphic testing (same call under tuple/list/string/negative forms must agree) + grid-model oracle for range bounds + NamedRange round trips",
+        "Column letters/numbers are enumerated exhaustively up to a bound against an independent bijective base-26; every coordinate-taking getter and mutator is exercised under all coordinate forms on generated tables (results must coincide and equal the clipped rectangle of the grid model); named ranges are written and re-parsed for generated table names and areas; table renames must rewrite exactly the dependent named ranges.",
+        "Tuple form is the reference for form equivalence; table names limited to those the name check accepts.",
+        "DESIGN.md 3/C19",
+    ),
     "C01": (
         "model-based stateful testing (Hypothesis RuleBasedStateMachine) against an uncompressed grid reference model; bounded ddmin of failing histories",
         "Every public Table/Row editing operation, with generated coordinates (in range, edge, beyond, negative, all forms) and repeated arguments, is applied to the real table and to a list-of-lists grid; a read battery is compared after every step. Sampled histories, explicit model oracle.",
